@@ -597,6 +597,7 @@ func (s *stats) field(door string, k kind, tpath string) {
 type judgeOpts struct {
 	v2txn bool // also ask the doors that need signed transactions: ValidateV2Transaction, and ValidateBlock with the element as the parent of a signed v1 transaction
 	supp  bool // also ask ValidateBlock through the supplement
+	lean  bool // placement probes: only the genuine-copy-first-then-later-transaction placement (big thorough slices)
 }
 
 func fingerprint(h *host, p probe) uint64 {
@@ -759,7 +760,7 @@ func judge(c *vlib.Ctx, st *stats, h *host, p probe, o judgeOpts) {
 		for _, list := range suppLists(k) {
 			for _, pl := range placements(k) {
 				// "later-txn" for every probe; the other placements for every third probe (and every genuine one)
-				if pl != "later-txn" && fp%3 != 0 && !p.exp {
+				if pl != "later-txn" && (o.lean || fp%3 != 0) && !p.exp {
 					continue
 				}
 				got, err, pan := h.askSuppPlaced(*genuine, p.e, list, pl)
